@@ -395,3 +395,40 @@ Definition t_exchange (fuel : nat) (c : cfg) (s : st) (self_pni : option Z) (fir
         end
     end
   end.
+
+(* ---------------------------------------------------------------- Target._deactivate(data): the release phase *)
+(* deadline = time.time() + 1.0 is fixed once; while time.time() < deadline: answer DEP requests (ATN with ATN, anything else
+   with an information PDU carrying `data`), ignore what is not for this device, finish on DSL_REQ / RLS_REQ, on silence and
+   on every CommunicationError.  grace = the 1.0 s in time units. *)
+Fixpoint t_deact_loop (fuel' fuel : nat) (c : cfg) (s : st) (res : option (Z * Z * list Z)) (data : list Z) (deadline : Z) : M unit :=
+  if negb (now s <? deadline) then (Ok tt, s) else
+  match fuel' with
+  | O => (Hang, s)
+  | S f =>
+      let (r, s') := t_send fuel c s None res deadline in
+      match r with
+      | Err _ => (Ok tt, s')                                          (* except nfc.clf.CommunicationError: return *)
+      | Ok None => (Ok tt, s')
+      | Ok (Some q) =>
+          if oeqb (treq_did q) (cdid c) then
+            match q with
+            | TDsl _ | TRls _ =>
+                let rls := match q with TRls _ => true | _ => false end in
+                let (r2, s2) := t_listen fuel c s' (Some (enc_rel c rls)) 0 in
+                match r2 with Crash x => (Crash x, s2) | Hang => (Hang, s2) | _ => (Ok tt, s2) end
+            | TDep d =>
+                if rfmt d =? 8 then t_deact_loop f fuel c s' (Some (8, 0, [])) data deadline
+                else t_deact_loop f fuel c s' (Some (0, rpni d, data)) data deadline
+            | TOther _ => t_deact_loop f fuel c s' None data deadline
+            end
+          else t_deact_loop f fuel c s' None data deadline
+      | Crash x => (Crash x, s')
+      | Hang => (Hang, s')
+      end
+  end.
+
+Definition t_deactivate (fuel : nat) (c : cfg) (s : st) (data : list Z) (grace : Z) : M unit :=
+  t_deact_loop fuel fuel c s None data (now s + grace).
+
+(* the number of responses (frames, not mere listens) handed to the frontend *)
+Definition nresp (s : st) : nat := length (filter (fun e => isome (fst e)) (sent s)).
